@@ -240,7 +240,7 @@ func (w *World) loadKey(ld *ssa.UnOp) string {
 	if !w.escapes(base) {
 		// private storage: if the location has exactly one store in the program the load
 		// yields the stored value
-		if ss := w.stores[loc]; len(ss) == 1 && !inLoopWith(ss[0], ld) {
+		if ss := w.stores[loc]; len(ss) == 1 && !inLoopWith(ss[0], ld) && !(ld.Parent() != ss[0].Parent() && storeRepeatsPerObject(ss[0], base)) {
 			return w.key(ss[0].Val)
 		}
 		// whole-struct parameter copy: *t0 = req ; load &t0.F  => req.F
